@@ -314,6 +314,14 @@ def _np_add_where_out(a):
     return np.add(a, a, where=(a % 3 == 0), out=np.full(a.shape, -1.0))
 
 
+def _halving_blockwise(x):
+    """every block keeps every second row; a (1, n) operand is broadcast along the rows"""
+    import numpy as np
+    import dask_array as da
+    row = da.from_array(np.arange(float(x.shape[1])).reshape(1, -1), chunks=(1, x.chunks[1]))
+    return da.blockwise(lambda p, q: (p + q)[::2], "ij", x, "ij", row, "ij", adjust_chunks={"i": lambda c: (c + 1) // 2}, dtype="f8")
+
+
 def rewrite_targets(tier, rng):
     """compositions chosen to make the optimiser's rewrite rules fire (slice / rechunk / shuffle pushdowns,
     nested-op fusion, sliding-window substitution, chunk unification, rechunk-into-IO): (name, build)"""
@@ -386,6 +394,9 @@ def rewrite_targets(tier, rng):
         "expand_dims(x,0).rechunk((1,2,3))": (lambda x: da.expand_dims(x, 0).rechunk((1, 2, 3)), lambda a: np.expand_dims(a, 0)),
         "x[::-1, ::-1][1:3]": (lambda x: x[::-1, ::-1][1:3], lambda a: a[::-1, ::-1][1:3]),
         "tensordot(x, x.T)": (lambda x: da.tensordot(x, x.T, axes=1), lambda a: np.tensordot(a, a.T, axes=1)),
+        # coarse slice through a blockwise with adjust_chunks, one operand being a single block broadcast along the sliced axis
+        "blockwise(adjust_chunks, x + row)[1:2]": (lambda x: _halving_blockwise(x)[1:2], None),
+        "blockwise(adjust_chunks, x + row)[0:3, 1:]": (lambda x: _halving_blockwise(x)[0:3, 1:], None),
         # ufuncs with array-valued where= / out=: a slice pushed through the elemwise node must slice those operands too
         "add(x,x,where=m,out=z)[1:4, 1:3]": (lambda x: _add_where_out(x)[1:4, 1:3], lambda a: _np_add_where_out(a)[1:4, 1:3]),
         "add(x,x,where=m,out=z)[2]": (lambda x: _add_where_out(x)[2], lambda a: _np_add_where_out(a)[2]),
@@ -416,7 +427,7 @@ def rewrite_targets(tier, rng):
     for c in lay2:
         for sname, mk in srcs2(c):
             for oname, (f, g) in ops2.items():
-                out.append((f"2d/{sname}/{c}/{oname}", (lambda mk=mk, f=f, g=g: (f(mk()), g(d2), {}))))
+                out.append((f"2d/{sname}/{c}/{oname}", (lambda mk=mk, f=f, g=g: (f(mk()), (g(d2) if g is not None else None), {}))))
     # rank 3: every axis permutation (incl. the two 3-cycles, which are not their own inverse) under takes, slices,
     # rechunks and reductions -- the pushdowns through Transpose map axes through the permutation
     import itertools
